@@ -23,7 +23,7 @@ ASSUMPTIONS = ['phases already wrapped into [0,2pi) with at least one wrap', 'ph
 REQUIRED_CLASSES = ['subset-picked', 'two-chains', 'export', 'metric-computed']
 EXPECTED_LABELS = ['no-unexpected-exception', 'metrics-match-per-cycle-recomputation', 'subset-is-exactly-the-matching-cycles',
                    'chains-are-maximal-runs', 'cache-on-equals-cache-off', 'chain-metrics-and-export-agree']
-BUDGET_S = {'quick': 170, 'thorough': 1200}
+BUDGET_S = {'quick': 170, 'thorough': 900}
 OPTS = {'quick': {'sample_every': 0, 'concolic': False}, 'thorough': {'sample_every': 0, 'concolic': False}}
 OPTS = {'quick': {'sample_every': 211, 'concolic': False}, 'thorough': {'sample_every': 1009, 'concolic': False}}
 TWO_PI = 2 * math.pi
